@@ -180,6 +180,40 @@ static int replay_C10(const Args&)
    return fails;
 }
 
+// ---- C03: native sweep of interning
+static int replay_C03(const Args&)
+{
+   impl::Lexicon lex, lex2;
+   bool ok = true;
+   // boundaries: inline header (8), granule (16), around pool capacity; all byte values incl. NUL; not NUL-terminated sources
+   std::vector<std::u8string> words; std::vector<const String*> nodes;
+   auto add = [&](std::u8string w) { const String& s = lex.get_string(w); words.push_back(w); nodes.push_back(&s); if (s.characters() != std::u8string_view(w)) ok = false; };
+   for (int n : {1, 7, 8, 9, 15, 16, 17, 23, 24, 25, 31, 32, 33, 255, 256, 4096}) { std::u8string w; for (int i = 0; i < n; ++i) w.push_back(char8_t((i * 37 + n) & 0xff)); add(w); }
+   for (int i = 0; i < 30000; ++i) { std::u8string w(100, u8'a'); for (int k = 0; k < 8; ++k) w[k] = char8_t(u8'A' + ((i >> (4 * k)) & 15)); w[50] = 0; add(w); }   // > 1 MiB: rolls over pools
+   { std::u8string big(70000 * 16, u8'z'); big[5] = 1; add(big); add(std::u8string(100, u8'q')); }          // oversize word, then a normal one
+   CLAUSE(ok, "interned Strings have exactly the bytes given (boundary lengths, all byte values, NUL inside)");
+   ok = true;
+   for (size_t i = 0; i < words.size(); ++i) { if (nodes[i]->characters() != std::u8string_view(words[i])) ok = false; if (&lex.get_string(words[i]) != nodes[i]) ok = false; }
+   CLAUSE(ok, "no later interning altered an earlier String, and equal contents return the same node (30000 words across pool roll-overs)");
+   ok = true;
+   for (size_t i = 1; i < 2000; ++i) if (nodes[i] == nodes[i - 1]) ok = false;
+   CLAUSE(ok, "different contents give different nodes");
+   CLAUSE(&lex.get_string(u8"") == &String::empty_string() && &lex2.get_string(u8"") == &String::empty_string(), "the empty word is the process-wide empty String");
+   // reserved words: same constant node in every Lexicon, equal to the names of built-ins / constants; near misses are not reserved
+   const char8_t* reserved[] = { u8"...", u8"=0", u8"C", u8"C++", u8"auto", u8"bool", u8"char", u8"char16_t", u8"char32_t", u8"char8_t", u8"class", u8"const", u8"consteval", u8"constexpr", u8"constinit",
+      u8"default", u8"delete", u8"double", u8"enum", u8"explicit", u8"export", u8"extern", u8"false", u8"float", u8"friend", u8"inline", u8"int", u8"long", u8"long double", u8"long long", u8"mutable", u8"namespace",
+      u8"nullptr", u8"private", u8"protected", u8"public", u8"register", u8"restrict", u8"short", u8"signed char", u8"static", u8"this", u8"thread_local", u8"true", u8"typedef", u8"typename", u8"union",
+      u8"unsigned char", u8"unsigned int", u8"unsigned long", u8"unsigned long long", u8"unsigned short", u8"virtual", u8"void", u8"volatile", u8"wchar_t" };
+   ok = true;
+   for (auto w : reserved) { std::u8string_view v{w}; if (&lex.get_string(v) != &lex2.get_string(v)) ok = false; if (lex.get_string(v).characters() != v) ok = false;
+      std::u8string near{v}; near.push_back(u8'x'); if (&lex.get_string(near) == &lex.get_string(v) || lex.get_string(near).characters() != std::u8string_view(near)) ok = false;
+      if (v.size() > 1) { std::u8string pre{v.substr(0, v.size() - 1)}; if (lex.get_string(pre).characters() != std::u8string_view(pre)) ok = false; } }
+   CLAUSE(ok, "every reserved word maps to one process-wide node in every Lexicon; near misses do not");
+   {  const Identifier* id = util::view<Identifier>(lex.ulong_long_type().name()); CLAUSE(id && &id->string() == &lex.get_string(u8"unsigned long long"), "the longest reserved word names unsigned long long through its constant node");
+      const Identifier* id2 = util::view<Identifier>(lex.int_type().name()); CLAUSE(id2 && &id2->string() == &lex.get_string(u8"int"), "'int' is the constant node naming the built-in type"); }
+   return fails;
+}
+
 int main(int argc, char** argv)
 {
    if (argc < 2) return 3;
@@ -190,6 +224,7 @@ int main(int argc, char** argv)
       if (f == "C16") n = replay_C16(a);
       else if (f == "C08") n = replay_C08(a);
       else if (f == "C10") n = replay_C10(a);
+      else if (f == "C03") n = replay_C03(a);
       else { std::cerr << "unknown replay family " << f << "\n"; return 3; }
    } catch (const std::exception& e) { std::cout << "REPLAY-EXCEPTION: " << e.what() << "\n"; return 4; }
    return n > 0 ? 1 : 0;
